@@ -1733,6 +1733,90 @@ fn material_threshold_family(band: i32, per_signature: usize) -> Vec<Position> {
     out
 }
 
+/// Small material signatures: every pair of multisets of at most two men (queen, rook, bishop,
+/// knight, pawn) per side, both sides to move, `per` deterministic placements each (first valid
+/// ones of a fixed pseudo-random sequence: nobody in check, no promotion move for the mover).
+/// Captures inside the tree reduce these to every smaller signature (K+N+N v K, K+B v K, ...).
+fn small_material_family(per: usize) -> Vec<Position> {
+    use refchess::Pc;
+    let kinds = [Pc::Q, Pc::R, Pc::B, Pc::N, Pc::P];
+    let mut sets: Vec<Vec<Pc>> = vec![vec![]];
+    for (i, a) in kinds.iter().enumerate() {
+        sets.push(vec![*a]);
+        for b in kinds.iter().skip(i) {
+            sets.push(vec![*a, *b]);
+        }
+    }
+    let mut out = vec![];
+    let mut sig = 0u64;
+    for w in &sets {
+        for b in &sets {
+            if w.is_empty() && b.is_empty() {
+                continue;
+            }
+            for turn in [Col::W, Col::B] {
+                sig += 1;
+                let mut state = sig.wrapping_mul(0xD6E8_FEB8_6659_FD93) | 1;
+                let mut next = |m: u64| {
+                    state ^= state << 13;
+                    state ^= state >> 7;
+                    state ^= state << 17;
+                    (state >> 11) % m
+                };
+                let mut found = 0;
+                for _try in 0..300 {
+                    let mut p = Position::empty();
+                    p.turn = turn;
+                    p.full = 1;
+                    let mut ok = true;
+                    let put = |p: &mut Position, c: Col, pc: Pc, next: &mut dyn FnMut(u64) -> u64| -> bool {
+                        for _ in 0..64 {
+                            let sq = if pc == Pc::P {
+                                let rank = 1 + next(6) as u8;
+                                let rank = if c == Col::W { rank } else { 7 - rank };
+                                rank * 8 + next(8) as u8
+                            } else {
+                                next(64) as u8
+                            };
+                            if p.board[sq as usize].is_none() {
+                                p.board[sq as usize] = Some((c, pc));
+                                return true;
+                            }
+                        }
+                        false
+                    };
+                    ok &= put(&mut p, Col::W, Pc::K, &mut next);
+                    ok &= put(&mut p, Col::B, Pc::K, &mut next);
+                    for &pc in w {
+                        ok &= put(&mut p, Col::W, pc, &mut next);
+                    }
+                    for &pc in b {
+                        ok &= put(&mut p, Col::B, pc, &mut next);
+                    }
+                    if !ok || p.valid_root().is_err() {
+                        continue;
+                    }
+                    let mut other = p.clone();
+                    other.turn = turn.flip();
+                    if other.valid_root().is_err() {
+                        continue;
+                    }
+                    let l = p.legal_moves();
+                    if l.is_empty() || l.iter().any(|m| m.promo.is_some()) {
+                        continue;
+                    }
+                    out.push(p);
+                    found += 1;
+                    if found >= per {
+                        break;
+                    }
+                }
+            }
+        }
+    }
+    out
+}
+
 /// A fixed catalogue of sparse positions: `n` candidates drawn from a fixed xorshift sequence (the
 /// same list on every run and for every seed), anywhere on the board, either side to move, nobody
 /// in check, no promotion move at the root. General: each side a king plus 0..=4 men (queen,
@@ -1757,7 +1841,7 @@ fn sparse_catalogue(n: usize, lopsided: bool) -> Vec<Position> {
         let mut put = |p: &mut Position, c: Col, pc: Pc, next: &mut dyn FnMut(u64) -> u64| -> bool {
             for _ in 0..32 {
                 let sq = if pc == Pc::P {
-                    let rank = 1 + next(5) as u8;
+                    let rank = 1 + next(6) as u8; // up to the seventh rank: the root filter drops positions whose mover can promote
                     let rank = if c == Col::W { rank } else { 7 - rank };
                     rank * 8 + next(8) as u8
                 } else {
@@ -1865,6 +1949,11 @@ pub fn run_c13(args: &Args) -> i32 {
         eprintln!("[C13] material-threshold family: {} positions", fam.len());
         positions.extend(fam);
     }
+    {
+        let fam = small_material_family(args.tier.pick(3, 12));
+        eprintln!("[C13] small-material signature family: {} positions", fam.len());
+        positions.extend(fam);
+    }
     // fixed catalogues of sparse positions (see DESIGN.md, C13): mate-rich lopsided material, and
     // (thorough) general sparse material
     {
@@ -1909,7 +1998,7 @@ pub fn run_c13(args: &Args) -> i32 {
         json!({
             "evaluations": compared,
             "distinct_nontrivial": pairs_with_depth,
-            "rule": "positions of the C11 catalogue plus every 811th (thorough 47th) position of the C12 endgame families and every 37th (thorough 5th) member of the castling family, plus a material-signature family (every multiset q,r,b,n <= 2, p <= 8 worth 1800 +-100 (thorough +-200) against eight weaker sides, both colours, both sides to move, one (thorough three) deterministic placement each) and two fixed catalogues of sparse positions (24 000 candidates (thorough 240 000) with lopsided, mate-rich material - one side a queen plus 1-3 officers, the other 0-3 men - and, thorough only, 120 000 candidates with 0-4 men a side; candidates come from a fixed xorshift sequence, the same list on every run), with no promotion move at the root (either colour), one representative per mirror pair; the position and its colour mirror are each searched with empty history at expiry points k = 1, 2, ..., 48, 60, 75, ... (ratio 1.25) up to the cap; the score committed for each completed depth is collected from those runs, and every depth both searches report is compared (score == negated mirror score). evaluations = (pair, depth) comparisons; non-trivial = pairs with at least one common completed depth.",
+            "rule": "positions of the C11 catalogue plus every 811th (thorough 47th) position of the C12 endgame families and every 37th (thorough 5th) member of the castling family, plus a material-signature family (every multiset q,r,b,n <= 2, p <= 8 worth 1800 +-100 (thorough +-200) against eight weaker sides, both colours, both sides to move, one (thorough three) deterministic placement each), a small-material signature family (every pair of multisets of at most two men per side, both sides to move, three (thorough twelve) deterministic placements each) and two fixed catalogues of sparse positions (24 000 candidates (thorough 240 000) with lopsided, mate-rich material - one side a queen plus 1-3 officers, the other 0-3 men - and, thorough only, 120 000 candidates with 0-4 men a side; candidates come from a fixed xorshift sequence, the same list on every run), with no promotion move at the root (either colour), one representative per mirror pair; the position and its colour mirror are each searched with empty history at expiry points k = 1, 2, ..., 48, 60, 75, ... (ratio 1.25) up to the cap; the score committed for each completed depth is collected from those runs, and every depth both searches report is compared (score == negated mirror score). evaluations = (pair, depth) comparisons; non-trivial = pairs with at least one common completed depth.",
             "mirror_pairs": positions.len(),
             "pairs_by_number_of_depths_compared": by_depth.iter().map(|(k, v)| json!([k, v])).collect::<Vec<_>>(),
             "cap_k": cap, "max_depth_compared": max_depth,
